@@ -20,6 +20,16 @@ type Emb struct {
 	ES string
 }
 
+// Line is a struct stored by value inside slices, arrays and maps, with
+// reference fields of its own.
+type Line struct {
+	Name  string
+	Tags  []string
+	Attrs map[string]int
+	Qty   *int
+	Sub   *Inner
+}
+
 // Rec has a field of every indexable kind, nested structs by value, behind a
 // pointer and embedded, and container payloads for the aliasing checks.
 type Rec struct {
@@ -56,6 +66,9 @@ type Rec struct {
 	L    []*Inner
 	MI   map[string][]*Inner
 	Any  interface{}
+	LS   []Line
+	AR   [2]Line
+	MS   map[string]Line
 }
 
 // Derive is the transformation Rec.Transform applies.
